@@ -58,6 +58,8 @@ template <class A> static Verdict invariant(typename A::Uri &u, char producer, c
     if (held.user != back.user) return fail("user info reads back differently", klass);
     if (held.hostKind != back.hostKind) return fail("host kind reads back differently", klass);
     if (held.hostKind == HK_IP4 && memcmp(held.ip.data(), back.ip.data(), 4) != 0) return fail("IPv4 value reads back differently", klass);
+    // an IPv4 host has one spelling (four dec-octets): the text held must be the text written (only IPv6 literals are re-spelled)
+    if (held.hostKind == HK_IP4 && held.host != back.host) return fail("IPv4 host text '" + (held.host ? *held.host : std::string("-")) + "' reads back as '" + (back.host ? *back.host : std::string("-")) + "'", klass);
     if (held.hostKind == HK_IP6 && held.ip != back.ip) return fail("IPv6 value reads back differently", klass);
     if ((held.hostKind == HK_REG || held.hostKind == HK_FUT) && held.host != back.host) return fail("host text reads back differently", klass);
     if (held.port != back.port) return fail("port reads back differently", klass);
